@@ -54,6 +54,13 @@ class AState(Symbolic):
         self.ops = []
         self.deltas = {}       # str(dval) -> (tensor, indices)
         self._k = 0
+        self.handed = []       # the tensors handed out by reads: the state's own cached objects (a REF fork references the same ones)
+
+    def untouched(self):
+        """contract of StateForkType.REF (assumption 3 of C01) seen from the caller's side: what a read returns is the cached object
+        itself -- and the by-reference snapshot's -- so it is never updated in place (each has the single version it was handed out with)"""
+        return ("the values read from the state are not updated in place (they are the cache's -- and the by-reference snapshot's -- own objects)",
+                z3.BoolVal(all(len(t._versions) == 1 for t in self.handed)))
 
     def _name(self, k):
         if isinstance(k, str):
@@ -78,13 +85,17 @@ class AState(Symbolic):
         if self.clusters and s in (f"nll_regul_{VAR}_ind", "nll_regul_ind_sum_ind"):
             # mixture model: one regularity term per individual and cluster
             t = STensor((self.n_ind, self.clusters), lambda idx, v=v: elem(v, idx[0], idx[1]), "real", name=s)
+            self.handed.append(t)
             if s == "nll_regul_ind_sum_ind" and weighted:
                 from leaspy.utils.weighted_tensor import WeightedTensor
                 return SymObj(WeightedTensor, dict(value=t, weight=None))
             return t
         if s is not None and s.endswith("_ind"):
-            return STensor((self.n_ind,), lambda idx, v=v: elem(v, idx[0], z3.IntVal(0)), "real", name=s)
-        return STensor((), lambda idx, v=v: sc(v), "real", name=s or "value")
+            t = STensor((self.n_ind,), lambda idx, v=v: elem(v, idx[0], z3.IntVal(0)), "real", name=s)
+        else:
+            t = STensor((), lambda idx, v=v: sc(v), "real", name=s or "value")
+        self.handed.append(t)
+        return t
 
     def _getitem(self, it, k, node=None):
         return self.read(it, k, node, weighted=True)       # state[...] gives the stored (possibly weighted) value
@@ -240,7 +251,7 @@ class IndividualSample(Spec):
         log = rng_log(cx)
         res = [("exactly one proposal is put", z3.BoolVal(len(puts) == 1)),
                ("exactly one (partial) revert", z3.BoolVal(len(reverts) == 1 and reverts[0][1] is not None)),
-               ("no pending fork left", z3.BoolVal(state.fork is None))]
+               ("no pending fork left", z3.BoolVal(state.fork is None)), state.untouched()]
         if len(puts) != 1 or len(reverts) != 1 or reverts[0][1] is None:
             return res
         _, pname, dval, idx, accu, Ibefore, Iprop = puts[0]
@@ -501,7 +512,7 @@ class PopulationSample(Spec):
         state = st["state"]
         m = z3.Const("m_p", Name)
         return [("only this sampler's variable may have changed",
-                 z3.ForAll([m], z3.Implies(m != nm(VAR), state.I[m] == state.I0[m])))]
+                 z3.ForAll([m], z3.Implies(m != nm(VAR), state.I[m] == state.I0[m]))), state.untouched()]
 
 
 def to_real(v):
